@@ -134,6 +134,8 @@ pub struct P2Opts {
     pub gopts: GenOpts,
     pub multi_sources: bool,
     pub deps: bool,
+    /// weights of 0 / 1 / 2 dependency projects
+    pub dep_weights: [u32; 3],
     /// per-mille of cases with the standard library included (slow: ~50 files)
     pub std_per_mille: u32,
     /// per-mille of cases where a known colliding shape is forced (if the
@@ -144,6 +146,10 @@ pub struct P2Opts {
     /// per-mille of cases in which every file holds exactly one definition
     /// (files with several definitions trigger a known C25 ordering finding)
     pub single_def_per_mille: u32,
+    /// per-mille of cases in which every generic definition is instantiated
+    /// with one argument only (several specialisations requested from
+    /// different files trigger a known C24 finding)
+    pub unify_generics_per_mille: u32,
 }
 
 #[derive(Clone, Debug)]
@@ -159,6 +165,8 @@ pub struct P2Project {
     pub std_user: bool,
     /// every model file holds one definition
     pub single_def: bool,
+    /// every generic definition has one specialisation only
+    pub unified_generics: bool,
 }
 
 fn norm_join(a: &str, b: &str) -> String {
@@ -215,7 +223,8 @@ struct Body {
 
 /// Add 1..=n references to items of project `p` (namespace prefix `ns`, e.g.
 /// `"dep_a::"` or `""`) to a module body.
-fn add_refs(d: &mut Draw, p: &Project, owner: &Owner, ns: &str, n: usize, uid: &mut u32, b: &mut Body) {
+#[allow(clippy::too_many_arguments)]
+fn add_refs(d: &mut Draw, p: &Project, owner: &Owner, ns: &str, n: usize, uid: &mut u32, b: &mut Body, unify: bool) {
     let pkgs: Vec<ItemId> = p.packages(false).into_iter().filter(|x| placed(p, *x).is_some()).collect();
     let gpkgs: Vec<ItemId> = p.packages(true).into_iter().filter(|x| placed(p, *x).is_some()).collect();
     let mods: Vec<ItemId> = p
@@ -232,7 +241,11 @@ fn add_refs(d: &mut Draw, p: &Project, owner: &Owner, ns: &str, n: usize, uid: &
                 let c = mods[d.below_usize(mods.len())];
                 let m = p.module(c);
                 let ci = &p.items[c];
-                let garg = if m.generic { Some(*d.pick(&[8u32, 4, 16])) } else { None };
+                let garg = if m.generic {
+                    Some(if unify { unified_module_arg(p, c) } else { *d.pick(&[8u32, 4, 16]) })
+                } else {
+                    None
+                };
                 let cw = match (&m.width, garg) {
                     (Width::Generic, Some(g)) => g.to_string(),
                     (Width::Generic, None) => "8".to_string(),
@@ -316,7 +329,7 @@ fn add_refs(d: &mut Draw, p: &Project, owner: &Owner, ns: &str, n: usize, uid: &
                 b.text.push_str(&format!(
                     "    let _pg{k}: u32 = {ns}{}::<{}>::{};\n",
                     p.items[q].name,
-                    *d.pick(&[3u32, 2, 5]),
+                    if unify { unified_pkg_arg(p, q) } else { *d.pick(&[3u32, 2, 5]) },
                     p.pkg(q).consts[0].name
                 ));
                 b.items.insert((owner.clone(), q));
@@ -367,6 +380,10 @@ pub fn gen_p2(d: &mut Draw, o: &P2Opts) -> P2Project {
     if o.ensure_wildcard {
         ensure_wildcard(d, &mut root);
     }
+    let unified_generics = o.unify_generics_per_mille > 0 && d.below(1000) < o.unify_generics_per_mille;
+    if unified_generics {
+        unify_generic_args(&mut root);
+    }
     let single_def = o.single_def_per_mille > 0 && d.below(1000) < o.single_def_per_mille;
     if single_def {
         split_files(d, &mut root, &o.gopts);
@@ -411,7 +428,7 @@ pub fn gen_p2(d: &mut Draw, o: &P2Opts) -> P2Project {
 
     // ----------------------------------------------------------- dependencies
     let mut deps: Vec<Dep> = vec![];
-    let n_deps = if o.deps { d.weighted(&[5, 3, 3]) } else { 0 };
+    let n_deps = if o.deps { d.weighted(&o.dep_weights) } else { 0 };
     for i in 0..n_deps {
         let gopts = GenOpts {
             min_items: 2,
@@ -430,6 +447,9 @@ pub fn gen_p2(d: &mut Draw, o: &P2Opts) -> P2Project {
         prj.cfg = TomlCfg::basic(name);
         prj.cfg.incremental = false;
         rename_items(&mut prj, &format!("D{i}"));
+        if unified_generics {
+            unify_generic_args(&mut prj);
+        }
         if single_def {
             split_files(d, &mut prj, &gopts);
         }
@@ -463,7 +483,7 @@ pub fn gen_p2(d: &mut Draw, o: &P2Opts) -> P2Project {
         let mut b = Body::default();
         let n = d.usize_in(1, 2);
         let p1 = deps[1].prj.clone();
-        add_refs(d, &p1, &Owner::Dep(1), &format!("{key1}::"), n, &mut uid, &mut b);
+        add_refs(d, &p1, &Owner::Dep(1), &format!("{key1}::"), n, &mut uid, &mut b, unified_generics);
         if !b.items.is_empty() {
             let rel = ["src/zz_link.veryl", "src/a_link.veryl"][d.weighted(&[1, 1])].to_string();
             deps[0].extra.push(mk_extra(rel, "D0Link", b));
@@ -484,7 +504,7 @@ pub fn gen_p2(d: &mut Draw, o: &P2Opts) -> P2Project {
             if un == 0 || d.chance(1, 2) {
                 let n = d.usize_in(1, 3);
                 let pd = deps[*di].prj.clone();
-                add_refs(d, &pd, &Owner::Dep(*di), &format!("{}::", deps[*di].key), n, &mut uid, &mut b);
+                add_refs(d, &pd, &Owner::Dep(*di), &format!("{}::", deps[*di].key), n, &mut uid, &mut b, unified_generics);
                 // the module of this dependency that uses the other one
                 for (ei, e) in deps[*di].extra.iter().enumerate() {
                     if d.chance(2, 3) {
@@ -504,7 +524,7 @@ pub fn gen_p2(d: &mut Draw, o: &P2Opts) -> P2Project {
         if d.chance(2, 3) {
             let n = d.usize_in(1, 2);
             let pr = root.clone();
-            add_refs(d, &pr, &Owner::Root, "", n, &mut uid, &mut b);
+            add_refs(d, &pr, &Owner::Root, "", n, &mut uid, &mut b, unified_generics);
         }
         if b.items.is_empty() && b.links.is_empty() {
             continue;
@@ -541,10 +561,72 @@ pub fn gen_p2(d: &mut Draw, o: &P2Opts) -> P2Project {
         forced_collision: None,
         std_user,
         single_def,
+        unified_generics,
     };
     let force = o.collide_per_mille > 0 && d.below(1000) >= 1000 - o.collide_per_mille;
     p.settle_collisions(d, force);
     p
+}
+
+/// The argument every user of generic package `q` has after `unify_generic_args`
+/// (the first one in use, else 3).
+fn unified_pkg_arg(p: &Project, q: ItemId) -> u32 {
+    for m in p.modules() {
+        for u in &p.module(m).uses {
+            if let UseKind::GenPkg(x, n) = &u.kind
+                && *x == q
+            {
+                return *n;
+            }
+        }
+    }
+    3
+}
+
+/// Same for a generic module; only literal arguments are unified (8 if none).
+fn unified_module_arg(p: &Project, c: ItemId) -> u32 {
+    for m in p.modules() {
+        for u in &p.module(m).uses {
+            if let UseKind::Inst { child, garg: Some(GenArg::Lit(n)), .. } = &u.kind
+                && *child == c
+            {
+                return *n;
+            }
+        }
+    }
+    8
+}
+
+/// Give every generic definition exactly one specialisation: all users pass
+/// the same literal argument.
+fn unify_generic_args(p: &mut Project) {
+    let mods = p.modules();
+    let mut pkg_arg: BTreeMap<ItemId, u32> = BTreeMap::new();
+    let mut mod_arg: BTreeMap<ItemId, u32> = BTreeMap::new();
+    for m in &mods {
+        for u in &p.module(*m).uses {
+            match &u.kind {
+                UseKind::GenPkg(q, n) => {
+                    pkg_arg.entry(*q).or_insert(*n);
+                }
+                UseKind::Inst { child, garg: Some(GenArg::Lit(n)), .. } => {
+                    mod_arg.entry(*child).or_insert(*n);
+                }
+                _ => {}
+            }
+        }
+    }
+    for m in mods {
+        for u in p.module_mut(m).uses.iter_mut() {
+            match &mut u.kind {
+                UseKind::GenPkg(q, n) => *n = pkg_arg[q],
+                UseKind::Inst { child, garg: Some(g), .. } => {
+                    *g = GenArg::Lit(*mod_arg.get(child).unwrap_or(&8));
+                }
+                _ => {}
+            }
+        }
+    }
 }
 
 /// One definition per file: every further item of a file moves to a new file.
@@ -1078,6 +1160,9 @@ impl P2Project {
         }
         if self.single_def {
             s.push_str(" | one definition per file");
+        }
+        if self.unified_generics {
+            s.push_str(" | one specialisation per generic");
         }
         s
     }
